@@ -147,6 +147,15 @@ def imager_case(ctx, k, rng):
                 e = extents[int(rng.integers(0, len(extents)))]
                 deg = str(rng.choice(["birth", "pers"])) if rng.random() < 0.12 else None
                 X = gen_dataset(rng, *e, degenerate=deg)
+                if not deg and last_fit is not None and rng.random() < 0.3:
+                    # the same list object as in the previous fit, refilled / updated in place
+                    Xn, X = X, last_fit[0]
+                    if rng.random() < 0.5:
+                        X[:] = Xn
+                    else:
+                        X[0] = Xn[0]
+                        X[-1] = X[-1] * 1.0; X[-1] *= float(rng.choice([0.5, 2.0]))
+                    ctx.note("refits on the same container object with new content")
                 log.append({"op": op, "extent": e, "n": len(X), "degenerate": deg})
                 ctx.ran()
                 if deg:
@@ -276,7 +285,19 @@ def landscaper_case(ctx, k, rng):
             op = str(rng.choice(["fit", "fit", "transform", "transform", "fit_transform", "assign"]))
             e = extents[int(rng.integers(0, len(extents)))]
             X = gen_dgms(rng, *e)
-            log.append({"op": op, "extent": e})
+            reused = False
+            if op in ("fit", "fit_transform") and last_fit is not None and rng.random() < 0.35:
+                # a sliding window / in-place update: the very same container object as in the previous fit, with new content
+                Y = gen_dgms(rng, *e)
+                X = last_fit
+                if rng.random() < 0.5:
+                    X[hom] = Y[hom]
+                else:
+                    X[hom] *= float(rng.choice([0.5, 2.0, 3.0])); X[hom] += float(rng.choice([0.0, 1.0]))
+                e = (float(min(d[:, 0].min() for d in X)), float(max(d[:, 1].max() for d in X)))
+                reused = True
+                ctx.note("refits on the same container object with new content")
+            log.append({"op": op, "extent": e, "same_container_as_last_fit": reused})
             with quiet():
                 if op == "assign":
                     # the user fixes a grid limit after construction: from now on it is a user-fixed parameter
